@@ -31,7 +31,7 @@ CWDS = [None, "/", None]
 
 def run(tier, rep):
     c.build_harness()
-    reps, threads, procs = (16, 4, 4) if tier == "quick" else (48, 8, 8)
+    reps, threads, procs = (16, 4, 4) if tier == "quick" else (24, 8, 6)
     total = 0
     for inst, stride in (("names", 1), ("children", 8 if tier == "quick" else 2), ("attrs", 6 if tier == "quick" else 2)):
         r, cases = pc.run_instance("C05", inst, tier, invariants=["TypeOK", "Exact", "Deterministic"])
@@ -39,7 +39,7 @@ def run(tier, rep):
         rep.add(states=r.distinct, transitions=r.generated)
         mm = os.path.join(c.OUT, "cases", "C05-%s.mm.ndjson" % inst)
         dig = os.path.join(c.OUT, "cases", "C05-%s.digests" % inst)
-        nrandom = (600 if tier == "quick" else 3000) if inst == "names" else 0
+        nrandom = (600 if tier == "quick" else 2000) if inst == "names" else 0
         s = c.harness(["c05-repeat", "--cases", cases, "--reps", reps, "--threads", threads, "--stride", stride,
                        "--random", nrandom, "--seed", c.seed(), "--mismatches", mm, "--digests", dig + ".0"], timeout=3000)
         for m in c.read_ndjson(mm):
@@ -77,10 +77,10 @@ def run(tier, rep):
         else:
             r, tcases = rc.run_pool("C05", pool, 5 if pool == "suffixgap" else 4, 0, ("add", "text"), invariants=["Unique", "EmitCase"], timeout=300)
         rep.add(states=r.distinct, transitions=r.generated)
-        total, kept = rc.thin(tcases, 4000 if tier == "quick" else 200000)
+        total, kept = rc.thin(tcases, 4000 if tier == "quick" else 30000)
         mm = os.path.join(c.OUT, "cases", "C05-trees.mm.ndjson")
         dig = os.path.join(c.OUT, "cases", "C05-trees.digests")
-        s = c.harness(["api-replay", "--cases", tcases, "--repeat", 12 if tier == "quick" else 60, "--mismatches", mm,
+        s = c.harness(["api-replay", "--cases", tcases, "--repeat", 12 if tier == "quick" else 24, "--mismatches", mm,
                        "--digests", dig + ".0"], timeout=3000)
         # fresh processes that build and render the same trees in the opposite order and in shuffled orders must produce
         # the same texts (two trees that disturb each other through process-wide state meet in either order)
@@ -104,7 +104,7 @@ def run(tier, rep):
             if m.get("kind") == "repeat-tree":
                 rep.violation(m, "a tree built by %s renders differently on repetition: %s" % (
                     [rc.unatom(o.get("name", [])) for o in m["ops"]], first_diff(m["first"], m["other"])))
-        rep.add(evaluations=kept * (12 if tier == "quick" else 60), traces_validated_against_impl=kept, trees_rendered_repeatedly=kept)
+        rep.add(evaluations=kept * (12 if tier == "quick" else 24), traces_validated_against_impl=kept, trees_rendered_repeatedly=kept)
         os.remove(tcases)
     rep.add(rule=RULE, exhaustive=True, repetitions=reps, threads=threads, processes=procs)
     rep.assumptions += ["every HashMap::new() gets a fresh RandomState, so repetitions range over iteration orders; address / seed "
